@@ -1,9 +1,201 @@
-(* C11/Props.v -- property theorems only. *)
+(* C11/Props.v -- property theorems only; each is closed by [exact] of a lemma
+   from C11/Proofs.v and followed by Print Assumptions.
+
+   All theorems are at the R instance of the models in C11/Model.v.  Operators,
+   adjoints, proximals, gradients and projections are universally quantified
+   FUNCTIONS list R -> list R (no linearity, no shape hypothesis), vectors are
+   lists of any length, iteration counts are arbitrary naturals. *)
 From Coq Require Import Reals List Bool.
 From Verif Require Import Base.Num Base.Vec Base.VecR C11.Model C11.Proofs.
 Import ListNotations.
+Local Open Scope R_scope.
 
-Theorem resume_generic : forall (St : Type) (f : St -> St) (n m : nat) (s : St),
-  iter (n + m) f s = iter m f (iter n f s).
-Proof. exact @iter_add. Qed.
-Print Assumptions resume_generic.
+(* ====================== 1. optimised solver = reference, iterate by iterate *)
+
+(* admm_linearized vs admm_linearized_simple: the callback-observed sequences
+   of x are equal for every niter, whatever tmp_dom contained initially. *)
+Theorem admm_opt_refines_ref :
+  forall (L Ladj proxf proxg : list R -> list R) (tau sigma : R) (m niter : nat) (junk x : list R),
+  admm_opt_trace L Ladj proxf proxg tau sigma m niter junk x
+  = admm_ref_trace L Ladj proxf proxg tau sigma m niter x.
+Proof. exact admm_refines. Qed.
+Print Assumptions admm_opt_refines_ref.
+
+(* ... and the carried z, u agree too; tmp_ran = L(x) at every loop head. *)
+Theorem admm_state_invariant :
+  forall (L Ladj proxf proxg : list R -> list R) (tau sigma : R) (m niter : nat) (junk x : list R),
+  let o := iter niter (admm_opt_step L Ladj proxf proxg tau sigma) (admm_opt_init L m junk x) in
+  let r := iter niter (admm_ref_step L Ladj proxf proxg tau sigma) (admm_ref_init m x) in
+  ao_x o = ar_x r /\ ao_z o = ar_z r /\ ao_u o = ar_u r /\ ao_tr o = L (ao_x o).
+Proof. exact admm_state_refines. Qed.
+Print Assumptions admm_state_invariant.
+
+(* adupdates (fixed order) vs adupdates_simple, any number of operators, any
+   sharing pattern of the temporaries tmp_rans (ad_key), any initial content of
+   the temporaries: the k-th outer callback of the optimised solver is what the
+   reference returns after k+1 iterations.  Premise: every range has its entry
+   in tmp_rans (the dict is built from the set of all ranges). *)
+Theorem adupdates_opt_refines_ref :
+  forall (stepsize : R) (ops : list (@adop R)) (niter : nat) (tmps0 : list (list R)) (x : list R),
+  Forall (fun o => (ad_key o < length tmps0)%nat) ops ->
+  forall k, (k < niter)%nat ->
+  nth k (ad_opt_trace stepsize ops niter tmps0 x) [] = ad_ref_run stepsize ops (S k) x.
+Proof. exact ad_refines. Qed.
+Print Assumptions adupdates_opt_refines_ref.
+
+(* doubleprox_dc vs doubleprox_dc_simple: same (x, y) after every niter and the
+   same observed x sequence. *)
+Theorem doubleprox_dc_opt_refines_ref :
+  forall (K Kadj proxf proxgc gradphi : list R -> list R) (gamma mu : R) (niter : nat) (s : list R * list R),
+  iter niter (dpdc_opt_step K Kadj proxf proxgc gradphi gamma mu) s
+  = iter niter (dpdc_ref_step K Kadj proxf proxgc gradphi gamma mu) s
+  /\ trace fst niter (dpdc_opt_step K Kadj proxf proxgc gradphi gamma mu) s
+     = trace fst niter (dpdc_ref_step K Kadj proxf proxgc gradphi gamma mu) s.
+Proof. exact dpdc_refines. Qed.
+Print Assumptions doubleprox_dc_opt_refines_ref.
+
+(* pdhg's in-place loop body is the textbook Chambolle-Pock step (no _simple
+   version is shipped; this is the analogous statement). *)
+Theorem pdhg_step_is_textbook :
+  forall (L Ladj proxp proxd : list R -> list R) (tau sigma theta : R) (s : pdhg_st),
+  pdhg_step L Ladj proxp proxd tau sigma theta s = pdhg_ref_step L Ladj proxp proxd tau sigma theta s.
+Proof. exact pdhg_step_eq. Qed.
+Print Assumptions pdhg_step_is_textbook.
+
+(* ================================================== 2. resumption is exact *)
+
+(* Any solver whose call is "niter times the same state transformer on the
+   state the caller holds": landweber (state x), kaczmarz fixed order (x),
+   mlem/osmlem (x), doubleprox_dc ((x, y)), pdhg with x_relax and y passed
+   back ((x, x_relax, y)).  The instances are spelled out below. *)
+Theorem resume_exact_landweber :
+  forall (A : list R -> list R) (Dadj : list R -> list R -> list R) (proj : list R -> list R)
+         (rhs : list R) (omega : R) (n m : nat) (x : list R),
+  iter (n + m) (landweber_step A Dadj proj rhs omega) x
+  = iter m (landweber_step A Dadj proj rhs omega) (iter n (landweber_step A Dadj proj rhs omega) x).
+Proof. exact lw_resume. Qed.
+Print Assumptions resume_exact_landweber.
+
+Theorem resume_exact_kaczmarz :
+  forall (proj : list R -> list R) (ops : list (@kzop R)) (n m : nat) (x : list R),
+  iter (n + m) (kz_step proj ops) x = iter m (kz_step proj ops) (iter n (kz_step proj ops) x).
+Proof. exact kz_resume. Qed.
+Print Assumptions resume_exact_kaczmarz.
+
+Theorem resume_exact_osmlem :
+  forall (eps : R) (ops : list (@emop R)) (n m : nat) (x : list R),
+  iter (n + m) (em_step eps ops) x = iter m (em_step eps ops) (iter n (em_step eps ops) x).
+Proof. exact em_resume. Qed.
+Print Assumptions resume_exact_osmlem.
+
+Theorem resume_exact_pdhg :
+  forall (L Ladj proxp proxd : list R -> list R) (tau sigma theta : R) (n m : nat) (s : pdhg_st),
+  iter (n + m) (pdhg_step L Ladj proxp proxd tau sigma theta) s
+  = iter m (pdhg_step L Ladj proxp proxd tau sigma theta) (iter n (pdhg_step L Ladj proxp proxd tau sigma theta) s).
+Proof. exact pdhg_resume. Qed.
+Print Assumptions resume_exact_pdhg.
+
+Theorem resume_exact_doubleprox_dc :
+  forall (K Kadj proxf proxgc gradphi : list R -> list R) (gamma mu : R) (n m : nat) (s : list R * list R),
+  iter (n + m) (dpdc_opt_step K Kadj proxf proxgc gradphi gamma mu) s
+  = iter m (dpdc_opt_step K Kadj proxf proxgc gradphi gamma mu)
+      (iter n (dpdc_opt_step K Kadj proxf proxgc gradphi gamma mu) s).
+Proof. exact dpdc_resume. Qed.
+Print Assumptions resume_exact_doubleprox_dc.
+
+(* steepest descent with ConstantLineSearch, tolerance test and projection: the
+   second call starts with a fresh "not returned yet" flag and still ends at
+   the same iterate (an early return is a fixed point). *)
+Theorem resume_exact_steepest_descent :
+  forall (grad proj : list R -> list R) (step tol : R) (n m : nat) (x : list R),
+  fst (iter (n + m) (sd_step grad proj step tol) (x, false))
+  = fst (iter m (sd_step grad proj step tol) (fst (iter n (sd_step grad proj step tol) (x, false)), false)).
+Proof. exact sd_resume. Qed.
+Print Assumptions resume_exact_steepest_descent.
+
+(* proximal_gradient.  FULL STATEMENT (false of the faithful model when lam is
+   a callable, because every call restarts its counter at k = 0):
+     forall lam n m x, iterk (n+m) 0 (pg_step .. lam) x
+                       = iterk m 0 (pg_step .. lam) (iterk n 0 (pg_step .. lam) x).
+   Proved: (a) with the relaxation shifted by the iterations already done,
+   (b) hence for every constant lam (the float case); refuted: (c). *)
+Theorem resume_proximal_gradient_partial :
+  forall (proxf gradg : list R -> list R) (gamma : R) (lam : nat -> R) (n m : nat) (x : list R),
+  iterk (n + m) 0 (pg_step proxf gradg gamma lam) x
+  = iterk m 0 (pg_step proxf gradg gamma (fun k => lam (n + k)%nat)) (iterk n 0 (pg_step proxf gradg gamma lam) x).
+Proof. exact pg_resume. Qed.
+Print Assumptions resume_proximal_gradient_partial.
+
+Theorem resume_exact_proximal_gradient_const_lam :
+  forall (proxf gradg : list R -> list R) (gamma c : R) (n m : nat) (x : list R),
+  iterk (n + m) 0 (pg_step proxf gradg gamma (fun _ => c)) x
+  = iterk m 0 (pg_step proxf gradg gamma (fun _ => c)) (iterk n 0 (pg_step proxf gradg gamma (fun _ => c)) x).
+Proof. exact pg_resume_const. Qed.
+Print Assumptions resume_exact_proximal_gradient_const_lam.
+
+Theorem resume_proximal_gradient_callable_lam_refuted :
+  exists (proxf gradg : list R -> list R) (gamma : R) (lam : nat -> R) (n m : nat) (x : list R),
+  iterk (n + m) 0 (pg_step proxf gradg gamma lam) x
+  <> iterk m 0 (pg_step proxf gradg gamma lam) (iterk n 0 (pg_step proxf gradg gamma lam) x).
+Proof. exact pg_resume_callable_refuted. Qed.
+
+(* ============================ 3. callbacks: exactly one iterate per iteration *)
+
+(* A callback at the end of the loop body (admm, pdhg, doubleprox_dc, landweber,
+   proximal_gradient, kaczmarz/adupdates with callback_loop='outer', mlem): *)
+Theorem callback_once :
+  forall (St : Type) (obs : St -> list R) (f : St -> St) (niter : nat) (s : St),
+  length (trace obs niter f s) = niter
+  /\ forall k, (k < niter)%nat -> nth k (trace obs niter f s) [] = obs (iter (S k) f s).
+Proof. exact callback_once_gen. Qed.
+Print Assumptions callback_once.
+
+Theorem callback_once_counter :   (* proximal_gradient: body depends on k *)
+  forall (St : Type) (obs : St -> list R) (f : nat -> St -> St) (niter : nat) (s : St),
+  length (tracek obs niter 0 f s) = niter
+  /\ forall k, (k < niter)%nat -> nth k (tracek obs niter 0 f s) [] = obs (iterk (S k) 0 f s).
+Proof. exact callback_once_counter_gen. Qed.
+Print Assumptions callback_once_counter.
+
+(* callback_loop='inner' (kaczmarz) and osmlem (callback in the subset loop):
+   one call per sub-iteration, i.e. niter * len(ops) calls; for mlem (one
+   operator) this is one call per iteration with the plain trace. *)
+Theorem callback_kaczmarz_inner :
+  forall (proj : list R -> list R) (ops : list (@kzop R)) (niter : nat) (x : list R),
+  length (kz_trace_inner proj ops niter x) = (niter * length ops)%nat.
+Proof. exact kz_trace_inner_length. Qed.
+Print Assumptions callback_kaczmarz_inner.
+
+Theorem callback_osmlem :
+  forall (eps : R) (ops : list (@emop R)) (niter : nat) (x : list R),
+  length (em_trace eps ops niter x) = (niter * length ops)%nat.
+Proof. exact em_trace_length. Qed.
+Print Assumptions callback_osmlem.
+
+Theorem callback_once_mlem :
+  forall (eps : R) (o : @emop R) (niter : nat) (x : list R),
+  em_trace eps [o] niter x = trace (fun x => x) niter (em_step eps [o]) x.
+Proof. exact mlem_trace. Qed.
+Print Assumptions callback_once_mlem.
+
+(* steepest_descent returns early without calling back: at most maxiter calls,
+   exactly maxiter when the tolerance test never fires, and the k-th call
+   always sees the iterate after k+1 iterations. *)
+Theorem callback_steepest_descent :
+  forall (grad proj : list R -> list R) (step tol : R) (maxiter : nat) (x : list R),
+  (length (sd_trace grad proj step tol maxiter (x, false)) <= maxiter)%nat
+  /\ (snd (iter maxiter (sd_step grad proj step tol) (x, false)) = false ->
+      length (sd_trace grad proj step tol maxiter (x, false)) = maxiter)
+  /\ forall k, (k < length (sd_trace grad proj step tol maxiter (x, false)))%nat ->
+       nth k (sd_trace grad proj step tol maxiter (x, false)) []
+       = fst (iter (S k) (sd_step grad proj step tol) (x, false)).
+Proof. exact sd_callbacks. Qed.
+Print Assumptions callback_steepest_descent.
+
+(* ------------------------------------------------------------ non-vacuity *)
+(* the premise of adupdates_opt_refines_ref is satisfiable: two operators
+   sharing one temporary *)
+Example adupdates_premise_satisfiable :
+  let o := mk_adop (fun v : list R => v) (fun v => v) (fun v => v) 1 1 0 in
+  Forall (fun o => (ad_key o < length [[0]])%nat) [o; o].
+Proof. cbn. repeat constructor. Qed.
